@@ -6,13 +6,15 @@
 (* lru_trace.ndjson is a batch of recorded executions, each starting with  *)
 (* a Reset event.  Event kinds (all values observed, none computed):       *)
 (*   Reset {id, cap}            a fresh cache NewLRUClientSessionCache(cap)*)
-(*   Do    {t, op, k, v, ok, rv, mlen, qlen}                               *)
+(*   Do    {t, op, k, v, ok, rv, mlen, qlen, order}                        *)
 (*                              a call nobody overlaps, its result, and    *)
-(*                              len(c.m), c.q.Len() after it               *)
+(*                              len(c.m), c.q.Len() and the keys of the    *)
+(*                              recency list c.q (front to back) after it  *)
 (*   Call  {t, seq, op, k, v}   goroutine t is about to call (seq = its    *)
 (*                              per-goroutine call number)                 *)
 (*   Ret   {t, seq, ok, rv}     that call has returned (ok, rv)            *)
-(*   Final {mlen, qlen}         sizes after all goroutines were joined     *)
+(*   Final {mlen, qlen, order}  sizes and recency list after all goroutines*)
+(*                              were joined                                *)
 (* rv is the identity of the returned *ClientSessionState: the v of the    *)
 (* Put that stored this pointer, 0 for nil, -1 for a pointer never stored. *)
 (*                                                                         *)
@@ -40,6 +42,7 @@ tvars == <<cap, q, pend, l, base, id, bad, nilabs>>
 Ev == Trace[l]
 OpOf(e) == [op |-> e.op, k |-> e.k, v |-> e.v]
 ResOf(e) == [ok |-> e.ok, v |-> e.rv]
+OrderOf(s) == [i \in DOMAIN s |-> s[i].k]          \* the keys of the recency list, front to back
 NilAbsent(o) == o.op = "Put" /\ o.v = Nil /\ ~Has(q, o.k)
 
 Init == l = 1 /\ base = 0 /\ id = 0 /\ bad = FALSE /\ nilabs = FALSE /\ New(0)
@@ -52,6 +55,7 @@ TReset == /\ l <= N /\ Ev.ev = "Reset"
 DoOk == /\ Ev.t \in Threads /\ Ev.op \in {"Put", "Get"}
         /\ Do(Ev.t, OpOf(Ev), ResOf(Ev))
         /\ Len(q') = Ev.mlen /\ Len(q') = Ev.qlen
+        /\ OrderOf(q') = Ev.order
 TDo == /\ l <= N /\ ~bad /\ Ev.ev = "Do"
        /\ DoOk
        /\ l' = l + 1 /\ nilabs' = (nilabs \/ NilAbsent(OpOf(Ev))) /\ UNCHANGED <<base, id, bad>>
@@ -88,15 +92,15 @@ TRet == /\ l <= N /\ ~bad /\ Ev.ev = "Ret"
         /\ RetReady /\ Ret(Ev.t, ResOf(Ev))
         /\ l' = l + 1 /\ UNCHANGED <<base, id, bad, nilabs>>
 
-FinalOk == Len(q) = Ev.mlen /\ Len(q) = Ev.qlen /\ \A t \in Threads : pend[t] = NoCall
+FinalOk == Len(q) = Ev.mlen /\ Len(q) = Ev.qlen /\ OrderOf(q) = Ev.order /\ \A t \in Threads : pend[t] = NoCall
 TFinal == /\ l <= N /\ ~bad /\ Ev.ev = "Final"
           /\ FinalOk
           /\ l' = l + 1 /\ UNCHANGED <<cap, q, pend, base, id, bad, nilabs>>
 
 \* ---- events no action explains (in this branch) ----
-Model == IF Ev.ev = "Do" THEN [res |-> DoRes(q, OpOf(Ev)), len |-> Len(DoQ(q, cap, OpOf(Ev)))]
-         ELSE IF Ev.ev = "Ret" /\ RetReady THEN [res |-> pend[Ev.t].res, len |-> Len(q)]
-         ELSE [res |-> NoRes, len |-> Len(q)]
+Model == IF Ev.ev = "Do" THEN [res |-> DoRes(q, OpOf(Ev)), len |-> Len(DoQ(q, cap, OpOf(Ev))), order |-> OrderOf(DoQ(q, cap, OpOf(Ev)))]
+         ELSE IF Ev.ev = "Ret" /\ RetReady THEN [res |-> pend[Ev.t].res, len |-> Len(q), order |-> OrderOf(q)]
+         ELSE [res |-> NoRes, len |-> Len(q), order |-> OrderOf(q)]
 Unexplained == \/ Ev.ev = "Do" /\ ~ENABLED DoOk
                \/ Ev.ev = "Call" /\ ~ENABLED CallOk
                \/ Ev.ev = "Ret" /\ (RetReady \/ Ev.t \notin Threads \/ pend[Ev.t] = NoCall) /\ ~(RetReady /\ pend[Ev.t].res = ResOf(Ev))
